@@ -88,6 +88,12 @@ def gen_uid_case(rng: random.Random, tier: str, backends=('dict',)) -> dict:
                          'data': make_message(t), 'token': t,
                          'subdir': rng.choice(['new', 'new', 'cur']),
                          'at': rng.choice([0, 0, rng.randint(1, 60)])})
+        if cfg['backend'] == 'maildir' and rng.random() < 0.3:
+            # another process holds the UID-list lock for a while
+            acts.append({'kind': 'extlock', 'mailbox': rng.choice(names),
+                         'hold': rng.choice([0.005, 0.02, 0.05, 0.12, 0.3,
+                                             0.7]),
+                         'at': rng.choice([0, 0, rng.randint(1, 40)])})
         steps.append({'actions': acts, 'sched_seed': maybe_seed(rng, 0.3)})
         if any(a.get('then_expunge') for a in acts):
             steps.append({'actions': [{'sess': a['sess'], 'kind': 'expunge'}
